@@ -56,6 +56,7 @@ type c03Line struct {
 	Universe *c03Universe `json:"universe,omitempty"`
 	T        []int        `json:"t"`
 	D        []int        `json:"d"` // routes added and deleted again before the lookup
+	O        []string     `json:"o"` // observers that read the table before the lookup
 	H        int          `json:"h"`
 	TLS      int          `json:"tls"`
 	W        [][]int      `json:"w"`
@@ -83,6 +84,7 @@ type c03Explicit struct {
 	Order   int        `json:"order"`
 	Dead    []c03Route `json:"dead,omitempty"`    // added, then deleted by `route del`
 	Builder string     `json:"builder,omitempty"` // "" / "text": NewTable, "custom": NewTableCustom
+	Obs     []string   `json:"obs,omitempty"`     // observers that read the table before the lookup
 }
 
 // ---- the real code under test
@@ -148,6 +150,19 @@ func c03Build(routes, dead []c03Route, order int, builder string) (tbl Table, er
 		return nil, fmt.Errorf("panic: %v\n%s", p, stack)
 	}
 	return tbl, err
+}
+
+// c03Observe lets the observers of this package read the table (the admin API observers are
+// applied by harness/admin/api/c03_test.go).  Reading must not change any answer.
+func c03Observe(tbl Table, obs []string) {
+	for _, o := range obs {
+		switch o {
+		case "String":
+			_ = tbl.String()
+		case "Dump":
+			_ = tbl.Dump()
+		}
+	}
 }
 
 func c03ID(t *Target) int {
@@ -220,6 +235,7 @@ func c03Features(x *c03Explicit, got int) map[string]any {
 	}
 	f["builder"] = map[bool]string{true: "custom", false: "text"}[x.Builder == "custom"]
 	f["deleted_routes"] = len(x.Dead)
+	f["observers"] = strings.Join(x.Obs, ",")
 	switch {
 	case x.Want > 0 && got == 0:
 		f["clause"] = "no-route"
@@ -296,6 +312,9 @@ func c03Describe(x *c03Explicit, got int) string {
 	if x.Builder == "custom" {
 		rs = append(rs, "built by NewTableCustom")
 	}
+	if len(x.Obs) > 0 {
+		rs = append(rs, "read by "+strings.Join(x.Obs, ",")+" before the lookup")
+	}
 	name := func(id int) string {
 		if id == 0 {
 			return "no route"
@@ -322,6 +341,7 @@ func c03RunExplicit(e *c03Env, x *c03Explicit, st *c03Stats) {
 		verifx.Fail(map[string]any{"x": x}, map[string]any{"kind": x.Kind, "clause": "table-rejected"}, "well-formed table rejected: %v\n%s", err, c03TableText(x.Routes, x.Dead, x.Order))
 		return
 	}
+	c03Observe(tbl, x.Obs)
 	c03Check(e, tbl, x, st)
 }
 
@@ -389,6 +409,7 @@ func c03RunLine(e *c03Env, u *c03Universe, l *c03Line, n int64, seed int64, st *
 			verifx.Fail(map[string]any{"line": l}, map[string]any{"kind": "lookup", "clause": "table-rejected", "builder": builder}, "well-formed table rejected: %v\n%s", err, c03TableText(routes, dead, order))
 			return nil
 		}
+		c03Observe(tbl, l.O)
 		for q, row := range l.W {
 			if len(row) != len(u.Combos) {
 				return fmt.Errorf("malformed result row")
@@ -399,7 +420,7 @@ func c03RunLine(e *c03Env, u *c03Universe, l *c03Line, n int64, seed int64, st *
 					continue
 				}
 				outcomes[want] = true
-				x := &c03Explicit{Kind: "lookup", Routes: routes, Dead: dead, Builder: builder, Host: host, TLS: l.TLS == 1, Path: strings.Join(u.RPaths[q], ""),
+				x := &c03Explicit{Kind: "lookup", Routes: routes, Dead: dead, Builder: builder, Obs: l.O, Host: host, TLS: l.TLS == 1, Path: strings.Join(u.RPaths[q], ""),
 					Matcher: u.Combos[k].M, Glob: u.Combos[k].G == 1, Want: want, Cache: cache, Order: order}
 				c03Check(e, tbl, x, st)
 			}
